@@ -33,7 +33,8 @@ Record mstate := {
   snap : post -> list sub;           (* ghost: the snapshot taken by Post *)
   tick : nat;
   mlog : list (post * sub);          (* ghost: deliveries, newest first *)
-  mpanic : bool
+  mpanic : bool;
+  mtypes : list typ                  (* ghost: the keys ever put into mux.subm *)
 }.
 
 Inductive mlabel :=
@@ -67,28 +68,28 @@ Definition slice_of (st : mstate) (o : option (aid * nat)) : list sub :=
 Definition minit : mstate :=
   {| heap := fun _ => []; nexta := 0; subm := fun _ => None; stopped := false; wlock := false;
      sstat := fun _ => UNone; created := fun _ => 0; ppcs := fun _ => PNew; ptyp := fun _ => 0; ptime := fun _ => 0;
-     snap := fun _ => []; tick := 0; mlog := []; mpanic := false |}.
+     snap := fun _ => []; tick := 0; mlog := []; mpanic := false; mtypes := [] |}.
 
 Definition set_sstat st s v := {| heap := heap st; nexta := nexta st; subm := subm st; stopped := stopped st; wlock := wlock st;
   sstat := mupd (sstat st) s v; created := created st; ppcs := ppcs st; ptyp := ptyp st; ptime := ptime st; snap := snap st;
-  tick := tick st; mlog := mlog st; mpanic := mpanic st |}.
+  tick := tick st; mlog := mlog st; mpanic := mpanic st; mtypes := mtypes st |}.
 Definition set_ppc st p v := {| heap := heap st; nexta := nexta st; subm := subm st; stopped := stopped st; wlock := wlock st;
   sstat := sstat st; created := created st; ppcs := mupd (ppcs st) p v; ptyp := ptyp st; ptime := ptime st; snap := snap st;
-  tick := tick st; mlog := mlog st; mpanic := mpanic st |}.
+  tick := tick st; mlog := mlog st; mpanic := mpanic st; mtypes := mtypes st |}.
 (* publish a freshly allocated array as the slice of type t *)
 Definition publish st t (l : list sub) := {| heap := mupd (heap st) (nexta st) l; nexta := S (nexta st);
   subm := mupd (subm st) t (Some (nexta st, length l)); stopped := stopped st; wlock := wlock st;
   sstat := sstat st; created := created st; ppcs := ppcs st; ptyp := ptyp st; ptime := ptime st; snap := snap st;
-  tick := tick st; mlog := mlog st; mpanic := mpanic st |}.
+  tick := tick st; mlog := mlog st; mpanic := mpanic st; mtypes := t :: mtypes st |}.
 Definition set_subm st f := {| heap := heap st; nexta := nexta st; subm := f; stopped := stopped st; wlock := wlock st;
   sstat := sstat st; created := created st; ppcs := ppcs st; ptyp := ptyp st; ptime := ptime st; snap := snap st;
-  tick := tick st; mlog := mlog st; mpanic := mpanic st |}.
+  tick := tick st; mlog := mlog st; mpanic := mpanic st; mtypes := mtypes st |}.
 Definition set_flags st stp wl := {| heap := heap st; nexta := nexta st; subm := subm st; stopped := stp; wlock := wl;
   sstat := sstat st; created := created st; ppcs := ppcs st; ptyp := ptyp st; ptime := ptime st; snap := snap st;
-  tick := tick st; mlog := mlog st; mpanic := mpanic st |}.
+  tick := tick st; mlog := mlog st; mpanic := mpanic st; mtypes := mtypes st |}.
 Definition set_mpanic st := {| heap := heap st; nexta := nexta st; subm := subm st; stopped := stopped st; wlock := wlock st;
   sstat := sstat st; created := created st; ppcs := ppcs st; ptyp := ptyp st; ptime := ptime st; snap := snap st;
-  tick := tick st; mlog := mlog st; mpanic := true |}.
+  tick := tick st; mlog := mlog st; mpanic := true; mtypes := mtypes st |}.
 
 Definition sst_eqb (a b : sst) : bool :=
   match a, b with UNone, UNone | UCreated, UCreated | UClosing, UClosing | UClosed, UClosed => true | _, _ => false end.
@@ -100,6 +101,14 @@ Definition cur (st : mstate) (p : post) : option (aid * nat * nat * sub) :=
   | _ => None
   end.
 
+(* every subscription in every list of mux.subm has finished closewait *)
+Definition all_closed (st : mstate) : bool :=
+  forallb (fun t => forallb (fun s => sst_eqb (sstat st s) UClosed) (slice_of st (subm st t))) (mtypes st).
+
+(* labels initiated by callers, as opposed to the synchronisation points of calls under way *)
+Definition minternal (l : mlabel) : bool :=
+  match l with MSubNew _ | MPostCall _ _ | MStopBegin => false | _ => true end.
+
 Definition mstep (st : mstate) (l : mlabel) : option mstate :=
   if mpanic st then None else
   match l with
@@ -107,7 +116,7 @@ Definition mstep (st : mstate) (l : mlabel) : option mstate :=
       if sst_eqb (sstat st s) UNone then
         Some {| heap := heap st; nexta := nexta st; subm := subm st; stopped := stopped st; wlock := wlock st;
                 sstat := mupd (sstat st) s UCreated; created := mupd (created st) s (tick st); ppcs := ppcs st; ptyp := ptyp st;
-                ptime := ptime st; snap := snap st; tick := S (tick st); mlog := mlog st; mpanic := mpanic st |}
+                ptime := ptime st; snap := snap st; tick := S (tick st); mlog := mlog st; mpanic := mpanic st; mtypes := mtypes st |}
       else None
   | MSubStopped s =>
       if sst_eqb (sstat st s) UCreated && stopped st && negb (wlock st) then Some (set_sstat st s UClosed) else None
@@ -123,7 +132,7 @@ Definition mstep (st : mstate) (l : mlabel) : option mstate :=
       match ppcs st p with
       | PNew => Some {| heap := heap st; nexta := nexta st; subm := subm st; stopped := stopped st; wlock := wlock st;
                         sstat := sstat st; created := created st; ppcs := mupd (ppcs st) p PCalled; ptyp := mupd (ptyp st) p t;
-                        ptime := mupd (ptime st) p (tick st); snap := snap st; tick := S (tick st); mlog := mlog st; mpanic := mpanic st |}
+                        ptime := mupd (ptime st) p (tick st); snap := snap st; tick := S (tick st); mlog := mlog st; mpanic := mpanic st; mtypes := mtypes st |}
       | _ => None
       end
   | MPostStopped p =>
@@ -139,7 +148,7 @@ Definition mstep (st : mstate) (l : mlabel) : option mstate :=
             let '(a, len) := match o with Some x => x | None => (0, 0) end in
             Some {| heap := heap st; nexta := nexta st; subm := subm st; stopped := stopped st; wlock := wlock st;
                     sstat := sstat st; created := created st; ppcs := mupd (ppcs st) p (PIter a len 0); ptyp := ptyp st;
-                    ptime := ptime st; snap := mupd (snap st) p (slice_of st o); tick := tick st; mlog := mlog st; mpanic := mpanic st |}
+                    ptime := ptime st; snap := mupd (snap st) p (slice_of st o); tick := tick st; mlog := mlog st; mpanic := mpanic st; mtypes := mtypes st |}
           else None
       | _ => None
       end
@@ -149,7 +158,7 @@ Definition mstep (st : mstate) (l : mlabel) : option mstate :=
           if Nat.eqb s' s && (sst_eqb (sstat st s) UCreated || sst_eqb (sstat st s) UClosing) then
             Some {| heap := heap st; nexta := nexta st; subm := subm st; stopped := stopped st; wlock := wlock st;
                     sstat := sstat st; created := created st; ppcs := mupd (ppcs st) p (PIter a len (S i)); ptyp := ptyp st;
-                    ptime := ptime st; snap := snap st; tick := tick st; mlog := (p, s) :: mlog st; mpanic := mpanic st |}
+                    ptime := ptime st; snap := snap st; tick := tick st; mlog := (p, s) :: mlog st; mpanic := mpanic st; mtypes := mtypes st |}
           else None
       | None => None
       end
@@ -188,7 +197,8 @@ Definition mstep (st : mstate) (l : mlabel) : option mstate :=
   | MClosing s => if sst_eqb (sstat st s) UCreated then Some (set_sstat st s UClosing) else None
   | MPostcClose s => if sst_eqb (sstat st s) UClosing then Some (set_sstat st s UClosed) else None
   | MStopBegin => if negb (wlock st) then Some (set_flags st (stopped st) true) else None
-  | MStopEnd => if wlock st then Some (set_flags (set_subm st (fun _ => None)) true false) else None
+  (* Stop: for every sub of every list: sub.closewait() (returns only when postC is closed); subm = nil; stopped = true; Unlock *)
+  | MStopEnd => if wlock st && all_closed st then Some (set_flags (set_subm st (fun _ => None)) true false) else None
   end.
 
 Fixpoint mrun_from (st : mstate) (tr : list mlabel) (n : nat) : mstate + nat :=
